@@ -53,21 +53,21 @@ BINDING = ({"D_total": 1}, {"D_total": 2}, {"D_total": 2}, {"D_total": 3}, {"D_t
 
 def plan(tier):
     if tier == "thorough":
-        return {"cases": 16000, "shards": 16, "budget_s": 800}
-    return {"cases": 2000, "shards": 8, "budget_s": 100}
+        return {"cases": 12000, "shards": 16, "budget_s": 800}
+    return {"cases": 1500, "shards": 8, "budget_s": 110}
 
 
 def floors(tier):
-    """About a quarter of the counts seen on the unchanged tree (thorough: x6 for 10x the cases)."""
-    k = 6 if tier == "thorough" else 1
-    f = {"evaluations": 1000, "gauge_steps": 4000, "steps_normalize_False": 1700, "state_comparisons": 3600,
+    """About a quarter to a third of the counts seen on the unchanged tree (thorough: x5 for 8x the cases)."""
+    k = 5 if tier == "thorough" else 1
+    f = {"evaluations": 600, "gauge_steps": 4000, "steps_normalize_False": 1700, "state_comparisons": 3600,
          "isometry_checks": 8500, "step:canonize_": 1300, "step:orthogonalize_site_": 650, "step:diagonalize_central_": 350,
          "step:absorb_central_": 600, "step:truncate_nonbinding": 250, "binding_truncations": 180, "binding:truncate_": 330,
          "binding:manual-sweep": 330, "identity:normalize=False": 330, "identity:normalize=True": 330,
          "cut_multiset_checks": 1200, "cut_multiset_binding": 160, "schmidt_cuts_compared": 1400, "entropies_compared": 1400,
-         "norm_compared": 300, "is_canonical_checked": 600, "final_to_tensor_crosschecks": 900, "start:ghz": 60,
-         "start:doubled": 75, "start:sum-of-products": 65, "start:random": 65, "rank_deficient_cuts": 45, "tie_cuts": 50,
-         "kind:mpo": 120, "N=1": 30, "N=2": 150, "N=6": 60, "must_reject": 100}
+         "norm_compared": 300, "is_canonical_checked": 600, "final_to_tensor_crosschecks": 500, "start:ghz": 45,
+         "start:doubled": 50, "start:sum-of-products": 50, "start:random": 50, "rank_deficient_cuts": 30, "tie_cuts": 50,
+         "kind:mpo": 120, "N=1": 30, "N=2": 150, "N=6": 60, "must_reject": 70}
     return {name: v * k for name, v in f.items()}
 
 
